@@ -538,3 +538,31 @@ stage("blk_window", cons="blk", prod="blk")(
   (lambda P, i, p: S(P, i[0]).map(
     lambda b: [w * v for w, v in zip(P.la.window.hann(len(b)), b)]),
    lambda i, p: M.m_each(i, lambda b: b)))
+
+
+# --------------------------------------------- StreamTeeHub methods (thub)
+def _hub(P, x, n=1):
+  return P.ls.thub(S(P, x), n)
+
+
+stage("hub_skip", exact=True, params=lambda W: {"n": W.choose("n", 6)})(
+  (lambda P, i, p: _hub(P, i[0]).skip(p["n"]),
+   lambda i, p: M.m_skip(i, p["n"])))
+stage("hub_limit", exact=True, params=lambda W: {"n": W.choose("n", 9)})(
+  (lambda P, i, p: _hub(P, i[0]).limit(p["n"]),
+   lambda i, p: M.m_limit(i, p["n"])))
+stage("hub_map", exact=True)(
+  (lambda P, i, p: _hub(P, i[0]).map(f_plus1),
+   lambda i, p: M.m_each(i, f_plus1)))
+stage("hub_filter", exact=True, sel=True, params=pred_params)(
+  (lambda P, i, p: _hub(P, i[0]).filter(pred_of(p)),
+   lambda i, p: M.m_filter(i, pred_of(p))))
+stage("hub_append", exact=True, extra=("num",))(
+  (lambda P, i, p: _hub(P, i[0]).append(i[1]), lambda i, p: M.m_chain(i)))
+stage("hub_copy", exact=True)(
+  (lambda P, i, p: _hub(P, i[0]).copy(),
+   lambda i, p: M.m_each(i, lambda v: v)))
+stage("hub_two_uses")(
+  (lambda P, i, p: (lambda h: P.ls.Stream(h) + P.ls.Stream(h).skip(1))(
+    _hub(P, i[0], 2)),
+   lambda i, p: M.m_skip([M.m_each(i)], 1)))
